@@ -234,7 +234,7 @@ class FakeOS:
             t.fork_zero = False
             return 0
         _sysfail(s, p, "fork")
-        child = s.fork_proc(p, "%s/c%d" % (p.name.split("/")[0], s.next_pid - 1))
+        child = s.fork_proc(p, "%s/c" % (p.name.split("/")[0],))
         fn = s.on_fork(p, child, t)
         ct = s.new_task(child, fn, child.name, True)
         ct.fork_zero = True
